@@ -582,6 +582,7 @@ func runC05(c *Ctx) {
 	runC05More(c)
 	runC05NoErrAssert(c)
 	runC05Round3(c)
+	runC05ThrottleFloor(c)
 	if a := findPQ(p); a != nil {
 		sub := NewCtx(p, "C01", c.Tier, c.Config)
 		runC01Round3(sub, a)
